@@ -7,7 +7,11 @@ mis-shaped ones; arguments passed as plain arrays, transpose views, Fortran-orde
 strided and reversed views of larger base arrays -- the model receives the logical element matrix;
 40 % of the calls come after a random HISTORY of array operations on the operands or their bases:
 broadcasting binary operations (operand first / second, partner larger / equal / smaller / scalar /
-misaligned) that succeed or raise and are caught, unary operations, views -- the model ignores it) and the outcome -- every result element (value, the three component vectors,
+misaligned) that succeed or raise and are caught, unary operations, views -- the model ignores it;
+35 % of the cases REPEAT the call on the same array objects after in-place changes (element / slice
+assignment, *=, +=, or nothing), every call compared with the model on the contents at that moment;
+la.dot / la.matmul / @ also get N-d operands: dot with scalars and 1-D..3-D operands in all combinations,
+matmul with equal-rank stacks and broadcasting) and the outcome -- every result element (value, the three component vectors,
 node kind), the contents of the argument arrays after the call, or the exception class -- is
 compared bit for bit with the Gallina model LU.v instantiated at LUInst.FElt (FNum), evaluated
 inside coqc.  The theorems (coq/LUFacts.v, coq/DualRing.v, coq/props/C15.v) are about the same
@@ -26,7 +30,9 @@ PARTIAL = ('proved for every size N over any commutative ring with partial inver
            'GTC ureal arithmetic (generated operator bodies, over the reals) is shown to be dual-number arithmetic (C15_un_to_D, ureal-ureal operands); '
            'det = Leibniz determinant with '
            'cofactor sensitivities, the left-inverse equation inv(a).a = I, and complex / uncertain-complex elements are '
-           'covered only by the oracle search, not by the model')
+           'covered only by the oracle search, not by the model; N-d dot / matmul: the sum-of-products index pattern is '
+           'proved (C15_dot_nd_def, C15_matmul_nd_def, C15_dot_scalar_def) for the flat model that the correspondence ties to numpy; '
+           'la.matmul with operands of different rank (one of them >= 3-D) raises IndexError: known finding C15-3, modelled as such')
 ASSUMPTIONS = ['rounding error of float arithmetic is not bounded by proof (theorems are over exact rings)',
                "numpy's object-array dot (OBJECT_dot: first product, then left-to-right additions), transpose and "
                'indexing are modelled, not verified; their model is compared with numpy on every run']
@@ -37,9 +43,28 @@ def correspondence(rng, tier):
     return LC.run_corr(rng, n, 'C15')
 
 # ---------------------------------------------------------------- oracle (search only)
+def oracle_applies(case):
+    """may the oracle (which expects well-conditioned, well-shaped input) judge this correspondence case?"""
+    style = str(case.get('style'))
+    if 'misaligned' in style: return False
+    if case['fn'] in ('solve', 'inv', 'det', 'invab'):
+        return case.get('kind') != 'int' and (style == 'dom' or (style == 'tiny' and case.get('kind') == 'float'))
+    return True
+
 def search(rng, tier, broken):
-    n = 250 if tier == 'quick' else 4000
     tried = 0
+    # first the cases on which model and implementation disagreed (when the oracle can judge them) ...
+    for kind, detail in broken or []:
+        if kind != 'correspondence': continue
+        for m in detail:
+            case = m.get('case') if isinstance(m, dict) else None
+            if not case or not oracle_applies(case): continue
+            tried += 1
+            f = LC.oracle_check(case)
+            if f is not None and not is_known(f):
+                return {'tried': tried, 'failing': f, 'from': 'disagreeing correspondence case'}
+    # ... then the oracle's own stream
+    n = (1500 if broken else 250) if tier == 'quick' else 4000
     for _ in range(n):
         case = LC.gen_oracle_case(rng)
         tried += 1
@@ -54,11 +79,21 @@ def is_known(f):
     new object and its constructor asserts (AssertionError, seen through numpy's dot as SystemError).
     (C15-1, zero-valued right-hand sides carrying uncertainty, is FIXED: such inputs are failures again.)"""
     why = str(f.get('why', ''))
+    # C15-3: la.matmul / @ with operands of DIFFERENT rank, at least one of rank >= 3, raises IndexError
+    if f.get('fn') == 'matmulN' and 'raised IndexError' in why:
+        ra, rb = len(f['na']['shape']), len(f['nb']['shape'])
+        if ra != rb and max(ra, rb) >= 3:
+            return True
+    # C15-2: a plain complex number meets an uncertain real that is a declared intermediate (result()) in an
+    # operation whose identity shortcut returns the operand itself for one part (x * (1+bj), x - (0+bj), x + (0+bj);
+    # the complex may be an element or a computed product): UncertainComplex.__init__ asserts
     if ('AssertionError' in why or 'SystemError' in why):
         elems = LC.flat_descr(f.get('a')) + LC.flat_descr(f.get('b'))
-        unit_complex = any(e[0] == 'zc' and (e[1] == 1.0 or e[2] == 1.0) for e in elems)
+        for nd in (f.get('na'), f.get('nb')):
+            if nd: elems += nd['flat']
+        has_complex = any(e[0] == 'zc' for e in elems)
         interm = any(e[0] == 'm' and e[3] for e in elems)
-        return unit_complex and interm
+        return has_complex and interm
     return False
 
 def replay(payload):
@@ -94,3 +129,21 @@ def kf_complex_times_intermediate():
     except (AssertionError, SystemError) as ex:
         return True, {'raised': type(ex).__name__}
     return False, {}
+
+def kf_matmul_different_rank():
+    """la.matmul of a (2,2,3) stack with a (3,2) matrix, and of a (3,) vector with a (2,3,2) stack: numpy.matmul
+    broadcasts / promotes, la.matmul raises IndexError (the shorter operand is indexed with the stack indices too)"""
+    import numpy as np
+    from GTC import la
+    new_context(93)
+    def arr(shape):
+        return la.uarray(np.array([float(i + 1) for i in range(int(np.prod(shape)))], dtype=object).reshape(shape))
+    seen = []
+    for sa, sb in (((2, 2, 3), (3, 2)), ((3,), (2, 3, 2))):
+        try:
+            la.matmul(arr(sa), arr(sb)); seen.append('ok')
+        except IndexError:
+            seen.append('IndexError')
+        except Exception as ex:
+            seen.append(type(ex).__name__)
+    return seen == ['IndexError', 'IndexError'], {'outcomes': seen}
